@@ -35,6 +35,13 @@ CHECKS = {
                      'order, snake_case raw-escaped identifier, T / Option<T> / Vec<T> with T from the pinned table). Models are replayed on the native binary. '
                      'The thorough tier adds the Kani harness of the builtin table over all byte strings per length.',
                 note='trusted: SMI environment models (validated against the native binary each run), the reference model in smi/oracles.py; bounded to the scenario shapes (<=4 members, one nesting level)'),
+    'C11': dict(engine='E2-smi', cat='model_checking', design='4/C11',
+                technique='symbolic execution of the import-following reader MIR over symbolic import graphs; reachability as a z3 formula; native replay',
+                text='One symbolic exploration of XmlReader::read_xml / read_xml_internal / read_xsd / process_import / RustDocument::extend covers every import '
+                     'multigraph over the stated number of files (target of every import slot and the start file are symbolic). Per path z3 decides whether some '
+                     'graph makes the emitted components differ from graph reachability (each reachable file once, nothing unreachable, no file parsed that is '
+                     'unreachable), and non-termination shows as bounded-depth divergence; counterexample graphs are replayed on the native binary.',
+                note='trusted: SMI environment models; graphs bounded to 3 files x 2 slots (quick) / 4 x 2 and 3 x 3 (thorough); divergence bound 60 frames'),
 }
 
 NA = {
@@ -42,7 +49,7 @@ NA = {
     'C04': 'deserialization and round-trip are executed by yaserde derive expansion and xml-rs at run time (fmt/dyn/heap); CBMC cannot get through it and the MIR interpreter covers zeep, not yaserde',
     'C18': 'Send/Sync are auto-trait facts computed by rustc from the coroutine layout, not properties of executions a bounded symbolic run can falsify',
 }
-PENDING = ['C03', 'C05', 'C07', 'C08', 'C09', 'C10', 'C11', 'C12', 'C13', 'C14', 'C16', 'C17']
+PENDING = ['C03', 'C05', 'C07', 'C08', 'C09', 'C10', 'C12', 'C13', 'C14', 'C16', 'C17']
 
 
 def main():
